@@ -67,6 +67,8 @@ struct Script {
 }
 
 static SCRIPT: Mutex<Option<Arc<Script>>> = Mutex::new(None);
+/// keys of entries written on behalf of MSVC requests of the current history
+static FOREIGN_KEYS: Mutex<Vec<String>> = Mutex::new(Vec::new());
 
 fn tu_stdout(t: usize) -> Vec<u8> {
     format!("out{}", t).into_bytes()
@@ -113,9 +115,16 @@ impl Script {
                 MockChild::new(status(0), "compiler_id=gcc\ncompiler_version=\"12.2.0\"\n", "")
             } else if name == "clang" {
                 MockChild::new(status(0), "compiler_id=clang\ncompiler_version=\"14.0.6\"\n", "")
+            } else if name == "cl" {
+                MockChild::new(status(0), "compiler_id=msvc\n", "")
             } else {
                 MockChild::new(status(0), "", "not a known compiler")
             });
+        }
+        if args.iter().any(|a| a == "-showIncludes") && last.ends_with("test.c") {
+            // MSVC: detection of the -showIncludes prefix
+            let dir = Path::new(&last).parent().map(|p| p.display().to_string()).unwrap_or_default();
+            return Ok(MockChild::new(status(0), format!("Note: including file: {}/test.h\n", dir), ""));
         }
         if args.iter().any(|a| a == "-vV") {
             // the "is this a rustc driver?" probe made for executables with an unknown name
@@ -129,7 +138,7 @@ impl Script {
             }
         };
         let o = self.oracles.lock().unwrap()[t];
-        if args.iter().any(|a| a == "-E") {
+        if args.iter().any(|a| a == "-E" || a == "-EP") {
             if o.pp_status == 99 {
                 // a bug on the way to running the preprocessor
                 panic!("injected panic while spawning the preprocessor");
@@ -155,6 +164,16 @@ impl Script {
         while let Some(a) = it.next() {
             if a == "-o" {
                 out = it.next().map(|p| self.cwd.join(p));
+            }
+            // MSVC spellings: -Fo<object>, -Fd<program database> (written by every compile that uses it)
+            let s = a.to_string_lossy();
+            if let Some(p) = s.strip_prefix("-Fo") {
+                out = Some(self.cwd.join(p));
+            }
+            if let Some(p) = s.strip_prefix("-Fd") {
+                if o.c_status == 0 {
+                    let _ = std::fs::write(self.cwd.join(p), b"pdb");
+                }
             }
         }
         if o.c_status != 0 {
@@ -240,6 +259,9 @@ struct Faults {
 struct Cur {
     tu: Option<usize>,
     faults: Faults,
+    /// the running request is compiled by the fake MSVC: its entries have keys of their own and are not the
+    /// unit's entries that `disk` / `poke` steps aim at
+    foreign: bool,
 }
 
 struct FaultStorage {
@@ -315,6 +337,13 @@ fn crc32(data: &[u8]) -> u32 {
 impl FaultStorage {
     fn learn(&self, pp: Option<&str>, res: Option<&str>) {
         let cur = self.cur.lock().unwrap();
+        if cur.foreign {
+            let mut ig = FOREIGN_KEYS.lock().unwrap();
+            for k in [pp, res].into_iter().flatten() {
+                ig.push(k.to_owned());
+            }
+            return;
+        }
         if let Some(t) = cur.tu {
             let mut k = self.keys.lock().unwrap();
             let e = k.entry(t).or_insert((None, None));
@@ -438,6 +467,28 @@ impl Storage for FaultStorage {
 }
 
 // ---------------------------------------------------------------- one history
+
+/// Fallback for trees without the hook `SccacheService::verif_mock_with_failing_dist_client`: an inherent
+/// associated function of that name, when present, takes precedence over this trait's.
+trait FailingDistFallback: Sized {
+    fn verif_mock_with_failing_dist_client(_msg: &str, _storage: Arc<dyn Storage>, _rt: tokio::runtime::Handle) -> Option<Self> {
+        None
+    }
+}
+impl FailingDistFallback for SccacheService<Creator> {}
+trait IntoService {
+    fn into_service(self) -> Option<SccacheService<Creator>>;
+}
+impl IntoService for SccacheService<Creator> {
+    fn into_service(self) -> Option<SccacheService<Creator>> {
+        Some(self)
+    }
+}
+impl IntoService for Option<SccacheService<Creator>> {
+    fn into_service(self) -> Option<SccacheService<Creator>> {
+        self
+    }
+}
 
 struct World {
     dir: tempfile::TempDir,
@@ -593,6 +644,7 @@ impl World {
         std::fs::create_dir_all(&cache).unwrap();
         std::fs::write(cwd.join("gcc"), b"#!/bin/sh\n").unwrap();
         std::fs::write(cwd.join("clang"), b"#!/bin/sh\n# clang\n").unwrap();
+        std::fs::write(cwd.join("cl"), b"#!/bin/sh\n# cl\n").unwrap();
         std::fs::write(cwd.join("unk"), b"#!/bin/sh\n").unwrap();
         let old = filetime::FileTime::from_unix_time(1_600_000_000, 0);
         for t in 0..NTU {
@@ -616,6 +668,7 @@ impl World {
             unexpected: Mutex::new(vec![]),
         });
         *SCRIPT.lock().unwrap() = Some(script.clone());
+        FOREIGN_KEYS.lock().unwrap().clear();
         let keys = Arc::new(Mutex::new(HashMap::new()));
         let storage = make_storage(&cache, ppmode, false, &rt, &script, &keys).await;
         let service = SccacheService::<Creator>::mock_with_storage(storage.clone(), rt.clone());
@@ -646,6 +699,15 @@ impl World {
                 a.extend(["-c".to_string(), src, "-o".to_string(), out_rel]);
                 (exe, a)
             }
+            // MSVC with a program database that already exists (shared with an earlier compilation): argument
+            // parsing accepts the request, generate_compile_commands answers Cacheable::No -> NotCacheable
+            "msvc_nc" => {
+                let _ = std::fs::write(self.cwd.join("shared.pdb"), b"pdb of an earlier compilation");
+                (
+                    self.cwd.join("cl"),
+                    vec!["-c".into(), src, format!("-Fo{}", out_rel), "-Zi".into(), "-Fdshared.pdb".into()],
+                )
+            }
             "unsupported" => (self.cwd.join("unk"), vec!["-c".into(), src, "-o".into(), out_rel]),
             "vanished" => (self.cwd.join("gone-gcc"), vec!["-c".into(), src, "-o".into(), out_rel]),
             "notcompile" => (self.cwd.join("gcc"), vec![src, "-o".into(), format!("tu{}", t)]),
@@ -675,7 +737,7 @@ impl World {
     /// `run_req_inner` with a guard: a request that is never answered is reported as `hung` (10 minutes, real or
     /// virtual; far beyond the 60 s lookup time-out).
     async fn run_req(service: SccacheService<Creator>, msg: Request, out: PathBuf) -> Sx {
-        match tokio::time::timeout(Duration::from_secs(600), World::run_req_inner(service, msg, out)).await {
+        match tokio::time::timeout(request_timeout(), World::run_req_inner(service, msg, out)).await {
             Ok(x) => x,
             Err(_) => Sx::L(vec![Sx::L(vec![Sx::sym("hung")]), Sx::L(vec![])]),
         }
@@ -760,9 +822,10 @@ impl World {
     }
 
     async fn stats(&self) -> Sx {
-        match self.service.verif_call(Request::GetStats).await {
-            Ok((Response::Stats(info), _)) => stats_sx(&info.stats),
-            _ => Sx::L(vec![Sx::sym("no_stats")]),
+        match tokio::time::timeout(request_timeout(), self.service.verif_call(Request::GetStats)).await {
+            Ok(Ok((Response::Stats(info), _))) => stats_sx(&info.stats),
+            Ok(_) => Sx::L(vec![Sx::sym("no_stats")]),
+            Err(_) => Sx::L(vec![Sx::sym("stats_hung")]),
         }
     }
 
@@ -779,7 +842,7 @@ impl World {
                 Some(n) => n.to_string_lossy().into_owned(),
                 None => continue,
             };
-            if name.starts_with(".sccachetmp") {
+            if name.starts_with(".sccachetmp") || FOREIGN_KEYS.lock().unwrap().contains(&name) {
                 continue;
             }
             let bytes = std::fs::read(&f).unwrap_or_default();
@@ -896,6 +959,18 @@ fn stats_sx(s: &ServerStats) -> Sx {
     Sx::L(v)
 }
 
+static PAUSED: std::sync::atomic::AtomicBool = std::sync::atomic::AtomicBool::new(false);
+
+/// How long a request may stay unanswered: 8 s of real time (a request of these histories takes milliseconds), or 600 s of virtual time on the paused clock
+/// (far beyond the 60 s lookup time-out; virtual time only advances when nothing else can run).
+fn request_timeout() -> Duration {
+    if PAUSED.load(Ordering::SeqCst) {
+        Duration::from_secs(600)
+    } else {
+        Duration::from_secs(8)
+    }
+}
+
 fn scratch() -> PathBuf {
     let p = if Path::new("/dev/shm").is_dir() { PathBuf::from("/dev/shm") } else { std::env::temp_dir() };
     p
@@ -928,6 +1003,10 @@ async fn run_case(case: &Sx, rt: tokio::runtime::Handle) -> Result<Sx, String> {
     let mut w = World::new(ppmode, oracles, rt).await;
     let mut obs = vec![];
     for step in l[2].list() {
+        if format!("{}", Sx::L(obs.clone())).contains("hung") {
+            obs.push(Sx::L(vec![Sx::sym("aborted")]));
+            continue;
+        }
         let tag = step.tag();
         match tag.as_str() {
             "req" => {
@@ -936,6 +1015,7 @@ async fn run_case(case: &Sx, rt: tokio::runtime::Handle) -> Result<Sx, String> {
                     let mut c = w.storage.cur.lock().unwrap();
                     c.tu = Some(r.tu);
                     c.faults = r.faults;
+                    c.foreign = r.class == "msvc_nc";
                 }
                 w.script.cur_pp.store(0, Ordering::SeqCst);
                 let (p0, c0) = w.runs();
@@ -945,6 +1025,7 @@ async fn run_case(case: &Sx, rt: tokio::runtime::Handle) -> Result<Sx, String> {
                     let mut c = w.storage.cur.lock().unwrap();
                     c.tu = None;
                     c.faults = Faults::default();
+                    c.foreign = false;
                 }
                 let (p1, c1) = w.runs();
                 obs.push(Sx::L(vec![
@@ -963,6 +1044,7 @@ async fn run_case(case: &Sx, rt: tokio::runtime::Handle) -> Result<Sx, String> {
                     let mut c = w.storage.cur.lock().unwrap();
                     c.tu = Some(r.tu);
                     c.faults = r.faults;
+                    c.foreign = r.class == "msvc_nc";
                 }
                 w.script.cur_pp.store(0, Ordering::SeqCst);
                 let (p0, c0) = w.runs();
@@ -991,6 +1073,7 @@ async fn run_case(case: &Sx, rt: tokio::runtime::Handle) -> Result<Sx, String> {
                     let mut c = w.storage.cur.lock().unwrap();
                     c.tu = None;
                     c.faults = Faults::default();
+                    c.foreign = false;
                 }
                 let (p1, c1) = w.runs();
                 obs.push(Sx::L(vec![
@@ -1048,9 +1131,11 @@ async fn run_case(case: &Sx, rt: tokio::runtime::Handle) -> Result<Sx, String> {
                 let width = std::cmp::max(1, step.arg(3).u64() as usize);
                 if w.cache.is_dir() {
                     w.learn_from_disk();
-                    let key = w.keys.lock().unwrap().get(&tu).cloned().unwrap_or((None, None)).1;
+                    let on_pp = step.arg(4).is_sym("pp");
+                    let keys = w.keys.lock().unwrap().get(&tu).cloned().unwrap_or((None, None));
+                    let key = if on_pp { keys.0 } else { keys.1 };
                     if let Some(k) = key {
-                        let path = res_path(&w.cache, &k);
+                        let path = if on_pp { pp_path(&w.cache, &k) } else { res_path(&w.cache, &k) };
                         if path.is_file() {
                             let mut b = std::fs::read(&path).unwrap();
                             if !b.is_empty() {
@@ -1064,6 +1149,26 @@ async fn run_case(case: &Sx, rt: tokio::runtime::Handle) -> Result<Sx, String> {
                     }
                 }
                 obs.push(Sx::L(vec![Sx::sym("poke"), w.disk()]));
+            }
+            "restart_distfail" => {
+                // a new server whose distributed-compilation client cannot be created (e.g. OAuth2 configured,
+                // no token): `get_client()` fails for every executed request until the next restart
+                // the cached client configuration (where the missing token is looked up) lives in the scratch dir
+                std::env::set_var("SCCACHE_CACHED_CONF", w.dir.path().join("cached-config"));
+                w.storage = make_storage(&w.cache, w.ppmode, false, &w.rt, &w.script, &w.keys).await;
+                let svc = SccacheService::<Creator>::verif_mock_with_failing_dist_client(
+                    "injected: dist client cannot be created",
+                    w.storage.clone(),
+                    w.rt.clone(),
+                )
+                .into_service();
+                match svc {
+                    Some(svc) => {
+                        w.service = svc;
+                        obs.push(Sx::L(vec![Sx::sym("restart_distfail"), w.disk(), w.stats().await]));
+                    }
+                    None => return Err("this tree has no hook verif_mock_with_failing_dist_client".into()),
+                }
             }
             "restart_broken" => {
                 // the cache directory cannot be opened when the new server first touches its stores
@@ -1100,6 +1205,7 @@ async fn run_case(case: &Sx, rt: tokio::runtime::Handle) -> Result<Sx, String> {
             _ => return Err(format!("bad step {}", tag)),
         }
     }
+    // (a hung request leaves locks held for good: the rest of the history is not run)
     let un = w.script.unexpected.lock().unwrap().clone();
     if !un.is_empty() {
         return Err(format!("unexpected commands: {:?}", un));
@@ -1112,6 +1218,47 @@ fn has_timeout(case: &Sx) -> bool {
     format!("{}", case).contains(" timeout ")
 }
 
+/// Cases run on a worker thread that owns the runtimes.  If a case does not finish within the hard limit (a
+/// thread of the real code is stuck in a loop or on a lock, which no in-runtime time-out can interrupt) it is
+/// reported as hung, the worker is abandoned and a fresh one is started; after three such cases the remaining
+/// ones are not run at all, so that a broken tree cannot stall the check.
+struct Worker {
+    tx: std::sync::mpsc::Sender<Sx>,
+    rx: std::sync::mpsc::Receiver<Sx>,
+}
+
+fn spawn_worker() -> Worker {
+    let (tx, case_rx) = std::sync::mpsc::channel::<Sx>();
+    let (res_tx, rx) = std::sync::mpsc::channel::<Sx>();
+    std::thread::spawn(move || {
+        let rt = tokio::runtime::Builder::new_multi_thread().worker_threads(3).enable_all().build().unwrap();
+        // virtual time: the 60 s lookup time-out of get_cached_or_compile elapses at once
+        let rt_paused = tokio::runtime::Builder::new_current_thread().enable_all().start_paused(true).build().unwrap();
+        while let Ok(case) = case_rx.recv() {
+            let paused = has_timeout(&case);
+            PAUSED.store(paused, Ordering::SeqCst);
+            let r = if paused {
+                let h = rt_paused.handle().clone();
+                rt_paused.block_on(run_case(&case, h))
+            } else {
+                let h = rt.handle().clone();
+                rt.block_on(run_case(&case, h))
+            };
+            let out = match r {
+                Ok(x) => x,
+                Err(e) => Sx::L(vec![Sx::sym("harness_error"), Sx::B(e.into_bytes())]),
+            };
+            if res_tx.send(out).is_err() {
+                break;
+            }
+        }
+        // never drop the runtimes: a stuck blocking task would make the drop wait for ever
+        std::mem::forget(rt);
+        std::mem::forget(rt_paused);
+    });
+    Worker { tx, rx }
+}
+
 fn main() {
     let leg = std::env::args().nth(1).unwrap_or_default();
     if leg != "reqsm" {
@@ -1119,28 +1266,37 @@ fn main() {
         std::process::exit(2);
     }
     vh::quiet_panics();
-    let rt = tokio::runtime::Builder::new_multi_thread()
-        .worker_threads(3)
-        .enable_all()
-        .build()
-        .unwrap();
-    // virtual time: the 60 s lookup time-out of get_cached_or_compile elapses at once
-    let rt_paused = tokio::runtime::Builder::new_current_thread()
-        .enable_all()
-        .start_paused(true)
-        .build()
-        .unwrap();
+    let hard = Duration::from_secs(
+        std::env::var("VH_CASE_TIMEOUT").ok().and_then(|v| v.parse().ok()).unwrap_or(45),
+    );
+    let mut worker = spawn_worker();
+    let mut hangs = 0u32;
     vh::run_lines(|case| {
-        let r = if has_timeout(case) {
-            let h = rt_paused.handle().clone();
-            rt_paused.block_on(run_case(case, h))
-        } else {
-            let h = rt.handle().clone();
-            rt.block_on(run_case(case, h))
-        };
-        match r {
-            Ok(x) => x,
-            Err(e) => Sx::L(vec![Sx::sym("harness_error"), Sx::B(e.into_bytes())]),
+        if hangs >= 3 {
+            return Sx::L(vec![Sx::L(vec![Sx::sym("not_run_after_hangs")])]);
+        }
+        if worker.tx.send(case.clone()).is_err() {
+            worker = spawn_worker();
+            let _ = worker.tx.send(case.clone());
+        }
+        match worker.rx.recv_timeout(hard) {
+            Ok(x) => {
+                if format!("{}", x).contains("hung") {
+                    hangs += 1;
+                    // the abandoned server may hold threads and locks: start afresh
+                    worker = spawn_worker();
+                }
+                x
+            }
+            Err(_) => {
+                hangs += 1;
+                worker = spawn_worker();
+                Sx::L(vec![Sx::L(vec![Sx::sym("case_hung")])])
+            }
         }
     });
+    // do not wait for abandoned threads
+    use std::io::Write;
+    let _ = std::io::stdout().flush();
+    std::process::exit(0);
 }
